@@ -433,3 +433,108 @@ Proof.
   intros Hn H F T. apply compile_flag_inv in H. destruct H as (is0 & res & fr & C0 & _).
   destruct (compile_expr_FI _ _ _ _ _ Hn C0 F T) as (F1 & T1 & _). auto.
 Qed.
+
+(* ---------- shapes of the emitted instructions ---------- *)
+
+Definition prim_ok (r : reg) : Prop := match r with Primitive i _ => i < 15 | _ => True end.
+Definition res_shape (r : reg) : Prop := match slot r with Some _ => True | None => r = RNone end.
+Definition ishape (i : instr) : Prop := res_shape (i_res i) /\ prim_ok (i_left i) /\ prim_ok (i_right i).
+
+Lemma eclass_prim_ok r : eclass r -> prim_ok r.
+Proof. destruct r; cbn; auto. Qed.
+
+Lemma res_shape_prim_ok r : res_shape r -> prim_ok r.
+Proof. destruct r; cbn; auto. intros H; discriminate H. Qed.
+
+Lemma set_last_res_shape is r is' : set_last_res is r = Some is' -> res_shape r -> Forall ishape is -> Forall ishape is'.
+Proof.
+  unfold set_last_res. destruct (rev is) as [|l before] eqn:E; [discriminate|]. intros H Hr F. inversion H; subst.
+  assert (His : is = rev before ++ [l]) by (rewrite <- (rev_involutive is), E; reflexivity).
+  rewrite His in F. apply Forall_app in F. destruct F as [F1 F2]. apply Forall_app. split; [exact F1|].
+  inversion F2 as [|? ? (_ & Hl & Hrr) _]; subst. constructor; [|constructor]. repeat split; assumption.
+Qed.
+
+Lemma compile_expr_shape e : forall sc is r sc', compile_expr e sc = Ok (is, r, sc') -> entries_ok (sc_named sc) ->
+  prim_ok r /\ Forall ishape is.
+Proof.
+  induction e as [p|c|o l IHl r0 IHr|]; intros sc is r sc' H E.
+  - destruct p as [b|x|n]; [inversion H; subst; split; [exact I|constructor]| |inversion H; subst; split; [exact I|constructor]].
+    pose proof (compile_expr_entries_ok _ _ _ _ _ H E) as E'.
+    apply compile_atom_name in H. destruct H as (-> & Hg & _). split; [|constructor].
+    apply eclass_prim_ok. eapply entries_ok_get; eauto.
+  - discriminate H.
+  - apply compile_sexp_inv in H. destruct H as (is1 & lft & sc1 & is2 & rgt & sc2 & H1 & H2 & H3).
+    pose proof (compile_expr_entries_ok _ _ _ _ _ H1 E) as E1.
+    destruct (IHl _ _ _ _ H1 E) as [Pl Sl]. destruct (IHr _ _ _ _ H2 E1) as [Pr Sr].
+    assert (S12 : Forall ishape (is1 ++ is2)) by (apply Forall_app; auto).
+    destruct (is_valop o) eqn:Vo.
+    + apply lower_tail_valop in H3; auto. destruct H3 as (-> & -> & _). split; [exact I|].
+      apply Forall_app. split; [exact S12|]. constructor; [|constructor]. repeat split; auto.
+    + destruct (is_condop o) eqn:Co.
+      * apply lower_tail_condop in H3; auto. destruct H3 as (-> & -> & _). split; [exact I|].
+        apply Forall_app. split; [exact S12|]. constructor; [|constructor]. repeat split; auto.
+      * destruct o; try discriminate Vo; try discriminate Co; [|discriminate H3].
+        apply lower_tail_bind in H3. destruct H3 as (lft' & _ & -> & [(_ & (i0 & t0 & v0 & Hrc) & _ & Hset)|(-> & Hs)]).
+        -- assert (Hrs : res_shape lft') by (destruct Hrc as [-> | ->]; exact I).
+           split; [apply res_shape_prim_ok; exact Hrs|]. eapply set_last_res_shape; eauto.
+        -- assert (Hrs : res_shape lft') by (unfold res_shape; destruct (slot lft'); [exact I|contradiction]).
+           split; [apply res_shape_prim_ok; exact Hrs|].
+           apply Forall_app. split; [exact S12|]. constructor; [|constructor]. repeat split; auto. apply res_shape_prim_ok; exact Hrs.
+  - discriminate H.
+Qed.
+
+Lemma compile_body_shape es : forall sc is sc', compile_body es sc = Ok (is, sc') -> entries_ok (sc_named sc) -> Forall ishape is.
+Proof.
+  induction es as [|e r IH]; intros sc is sc' H E; cbn [compile_body] in H; [inversion H; constructor|].
+  destruct e as [p|c|o l r0|].
+  all: try (apply bind_ok_inv in H; destruct H as ([[is1 r1] sc1] & H1 & H);
+            apply bind_ok_inv in H; destruct H as ([rest sc2] & H2 & H); inversion H; subst;
+            apply Forall_app; split;
+            [exact (proj2 (compile_expr_shape _ _ _ _ _ H1 E))
+            |eapply IH; [exact H2|eapply compile_expr_entries_ok; [exact H1|exact E]]]).
+  eapply IH; eauto.
+Qed.
+
+(* the condition block: shapes, and its last instruction writes implicit register 0 *)
+Lemma compile_flag_shape e sc is sc' : compile_flag e sc = Ok (is, sc') -> entries_ok (sc_named sc) ->
+  flagsI (sc_named sc') ->
+  Forall ishape is /\ exists pre last t, is = pre ++ [last] /\ i_res last = Implicit 0 t.
+Proof.
+  intros H E ((t0 & F0) & _). apply compile_flag_inv in H. destruct H as (is0 & res & fr & C0 & Hf & Hshape).
+  rewrite F0 in Hf. inversion Hf; subst fr.
+  destruct (compile_expr_shape _ _ _ _ _ C0 E) as [_ S0].
+  destruct Hshape as [(b & -> & ->)|(j & t & _ & Hs)].
+  - split; [apply Forall_app; split; [exact S0|constructor; [repeat split; exact I|constructor]]|].
+    exists is0, (mkInstr (Implicit 0 t0) OBind (Implicit 0 t0) (ImmBool b)), t0. split; reflexivity.
+  - split; [eapply set_last_res_shape; [exact Hs|exact I|exact S0]|].
+    unfold set_last_res in Hs. destruct (rev is0) as [|l before]; [discriminate|]. inversion Hs; subst.
+    exists (rev before), (mkInstr (Implicit 0 t0) (i_op l) (i_left l) (i_right l)), t0. split; reflexivity.
+Qed.
+
+(* temporaries of the condition block and of the statement list *)
+Lemma compile_flag_tmps e sc is sc' : compile_flag e sc = Ok (is, sc') -> entries_ok (sc_named sc) ->
+  flagsI (sc_named sc') -> tmps_ok_i [] is = true.
+Proof.
+  intros H E ((t0 & F0) & _). apply compile_flag_inv in H. destruct H as (is0 & res & fr & C0 & Hf & Hshape).
+  rewrite F0 in Hf. inversion Hf; subst fr.
+  destruct (compile_expr_tmps _ _ _ _ _ [] C0 E) as [T0 _].
+  destruct Hshape as [(b & -> & ->)|(j & t & _ & Hs)].
+  - rewrite tmps_ok_app, T0. reflexivity.
+  - unfold set_last_res in Hs. destruct (rev is0) as [|l before] eqn:Er; [discriminate|]. inversion Hs; subst.
+    assert (His : is0 = rev before ++ [l]) by (rewrite <- (rev_involutive is0), Er; reflexivity).
+    rewrite His in T0. rewrite tmps_ok_app in T0 |- *. apply andb_true_iff in T0. destruct T0 as [Tp Tl]. rewrite Tp. cbn [andb].
+    cbn [tmps_ok_i i_left i_right i_op i_res] in Tl |- *.
+    apply andb_true_iff in Tl. destruct Tl as [Tl _]. apply andb_true_iff in Tl. destruct Tl as [Tl _].
+    rewrite Tl. cbn [andb]. unfold tmp_written_i at 1. cbn [is_tmp_reg negb orb]. rewrite orb_true_r. reflexivity.
+Qed.
+
+Lemma compile_body_tmps es : forall sc is sc' W, compile_body es sc = Ok (is, sc') -> entries_ok (sc_named sc) -> tmps_ok_i W is = true.
+Proof.
+  induction es as [|e r IH]; intros sc is sc' W H E; cbn [compile_body] in H; [inversion H; reflexivity|].
+  destruct e as [p|c|o l r0|].
+  all: try (apply bind_ok_inv in H; destruct H as ([[is1 r1] sc1] & H1 & H);
+            apply bind_ok_inv in H; destruct H as ([rest sc2] & H2 & H); inversion H; subst;
+            rewrite tmps_ok_app, (proj1 (compile_expr_tmps _ _ _ _ _ W H1 E)); cbn [andb];
+            eapply IH; [exact H2|eapply compile_expr_entries_ok; [exact H1|exact E]]).
+  eapply IH; eauto.
+Qed.
